@@ -44,6 +44,13 @@ def run(pid, title, clauses):
     deadline = time.time() + (900 if quick else 7200)
     ex = engine.explore('c06', 'path', args, jobs=ck.jobs, deadline=deadline)
     cands = ck.absorb('render(schema, vars): placement rules + well-formed output', ex, bounds=dict(args=len(args)), expect_tags=['rendered', 'wellformed', 'rerender_fixed_point'])
+    # differential validation: the string msym predicts for a sampled path's model == the natively rendered string
+    for wt in ex.wsamples:
+        r = native.driver().call(op='render', schema=wt['schema_json'], vars=wt['vars'], fmt=wt['fmt'])
+        ck.validated += 1
+        got = native.uncps(r['out']) if 'out' in r else repr(r)
+        if got != wt['out']:
+            ck.validation_mismatch.append(dict(schema=wt['schema'], fmt=wt['fmt'], vars=wt['vars'], msym=wt['out'], native=got))
     ex2 = engine.explore('c06', 'path_tier', SMART, jobs=ck.jobs, deadline=time.time() + 600)
     cands += ck.absorb('smart presets choose the tier from dirty/distance/pre_release/post only', ex2, expect_tags=['tier0', 'tier1', 'tier2', 'tier3'])
     if pid == 'C01':
